@@ -186,7 +186,40 @@ def diagnose(text):
     return (reasons[0] if reasons else "other"), t
 
 
+def _neutralise_one(text, reason):
+    if reason == "quoted-name-after-table-prefix":
+        return _Q_AFTER_PREFIX.sub("::Q", text)
+    if reason == "quoted-name-after-bare-span-start":
+        return _Q_AFTER_COLON.sub(":Q", text)
+    if reason == "tripled-apostrophe-in-name":
+        return text.replace("'''", "_")
+    return _neutralise_dquotes(text)[0]
+
+
+def _reasons(text):
+    out = []
+    t = text
+    if _Q_AFTER_PREFIX.search(t):
+        out.append("quoted-name-after-table-prefix")
+        t = _Q_AFTER_PREFIX.sub("::Q", t)
+    if _Q_AFTER_COLON.search(t):
+        out.append("quoted-name-after-bare-span-start")
+        t = _Q_AFTER_COLON.sub(":Q", t)
+    if "'''" in t:
+        out.append("tripled-apostrophe-in-name")
+    if _neutralise_dquotes(t)[1]:
+        out.append("double-quote-in-name")
+    return out
+
+
 def refusal_pattern(text):
+    # a single spelling that explains the refusal on its own wins (a text may contain several of them)
+    for reason in _reasons(text):
+        try:
+            Tokenizer(_neutralise_one(text, reason))
+            return reason
+        except Exception:  # noqa: BLE001
+            continue
     pattern, neutral = diagnose(text)
     if pattern != "other":
         try:
